@@ -1,31 +1,32 @@
 """Bounded stand-in for C17 (datasets / collation / baseline wrapping) and C19 (persistence round trips) of rl4co.
 
-Every clause runs the REAL rl4co function and compares with an oracle that does not call the function under test.
+Every clause runs the REAL rl4co function and compares with an oracle that never calls the function under test.
+Sections (select with --only <section>, or --prop C17|C19), clause names, and the oracle of each:
 
-C17 clauses (section -> clause name : oracle)
-  datasets  C17.<cls>.{read-raises,batch-sizes,keys,dtype-shape,order,permutation,extra-travels,second-pass,source-mutated}
-            : the source TensorDict cloned before wrapping; rows of every batch returned by
-              RL4COLitModule._dataloader_single(dataset, bs, shuffle) are matched on ALL keys against source rows.
-  wrap      C17.rollout.{order,bl_vals}, C17.wrap_dataset.<cls>.{extra-is-own-greedy-reward,extra-travels}
-            : reward of instance i = minus closed tour length (own float64 formula from the problem definition) of the
-              greedy actions of the same policy run on instance i ALONE (batch of one).
-C19 clauses
-  npz       C19.npz.{raises,keys,values-dtypes,batch-size} : the TensorDict that was saved.
-  loaddata  C19.cvrp.load_data.{demand-rowwise,other-keys}, C19.cvrp.dataset-from-file, C19.mtvrp.load_data.{scale-rowwise,noscale,
-            other-keys,scale.masks-equivalent}, C19.generate_dataset.<p>.{loader-content,deterministic,seed-sensitive,reset-content}
-            : numpy arithmetic on the raw arrays written to / read from the npz file (demand[i, j] / capacity[i]).
-  sched     C19.<fjsp|jssp>.{write-text,read-content,file-generator.content,file-generator.order,load_data.content,masks-along-actions}
-            : job/operation/(machine, duration) structure extracted by own code from the generated instance, and an own
-              parser of the text file; masks of the env on the original instance along the same random action sequence.
-  envcopy   C19.env.<deepcopy|pickle>.<env>.{raises,rng-state,reset-state,masks-along-actions,reward},
-            C19.env.pickle.unpickle-rewinds-global-rng : the original env object driven from the same rng state / same actions.
-  ckpt      C19.ckpt.<bl>.{load-default-raises,load-raises,policy-weights,greedy-actions-rewards,baseline-policy,baseline-eval}
-            : the in-memory trained REINFORCE module that wrote the checkpoint.
+C17 datasets  C17.<DatasetClass>.{read-raises,batch-sizes,keys,dtype-shape,order,permutation,extra-travels,second-pass,source-mutated}
+              oracle: the source TensorDict cloned before wrapping; every row of every batch returned by the real
+              RL4COLitModule._dataloader_single(dataset, bs, shuffle) is matched on ALL keys against the source rows.
+C17 wrap      C17.rollout.{order,bl_vals}, C17.wrap_dataset.<DatasetClass>.{raises,extra-is-own-greedy-reward,extra-travels}
+              oracle: reward of instance i = minus closed tour length (own float64 formula from the problem definition) of
+              the greedy actions of the same policy run on instance i ALONE (batch of one).
+C19 npz       C19.npz.{raises,keys,values-dtypes,batch-size}; oracle: the TensorDict that was saved.
+C19 loaddata  C19.cvrp.load_data.{raises,demand-rowwise,other-keys,reset-content}, C19.cvrp.dataset-from-file,
+              C19.mtvrp.load_data.{raises,scale-rowwise,noscale,other-keys,scale.masks-equivalent},
+              C19.generate_dataset.<problem>.{raises,loader-content,deterministic,seed-sensitive,reset-content}
+              oracle: numpy arithmetic on the raw arrays of the npz file (demand[i, j] / capacity[i]); masks of the unscaled instance.
+C19 sched     C19.<fjsp|jssp>.{raises,write-text,read-content,file-generator.content,file-generator.order,load_data.content,masks-along-actions}
+              oracle: jobs / operations / (machine, duration) structure extracted by own code from the generated instance, an own
+              parser of the text files, and the env on the ORIGINAL instances driven by the same random action sequence.
+C19 envcopy   C19.env.<deepcopy|pickle>.<env>.{raises,attributes,rng-state,reset-state,masks-along-actions,reward},
+              C19.env.pickle.unpickle-rewinds-global-rng; oracle: the original env driven from the same rng state / same actions.
+C19 ckpt      C19.ckpt.load-default-raises, C19.ckpt.<baseline>.{load-raises,policy-weights,greedy-actions-rewards,baseline-policy,baseline-eval}
+              oracle: the in-memory trained REINFORCE module that wrote the checkpoint (RL4COTrainer.fit + save_checkpoint).
 
-Bound: see BOUND below (per tier). Everything is seeded from VERIF_SEED.
+Bound: see BOUND (per tier); all randomness is seeded from VERIF_SEED. KNOWN lists clauses that the unchanged library falsifies.
 """
 import copy
 import glob
+import logging
 import os
 import pickle
 import sys
@@ -38,65 +39,63 @@ import _lib  # noqa: E402
 
 _lib.setup_path()
 warnings.filterwarnings("ignore")
-import logging  # noqa: E402
-
 import numpy as np  # noqa: E402
 import torch  # noqa: E402
 from tensordict import TensorDict  # noqa: E402
 
-for _n in ("lightning", "lightning.pytorch", "lightning.fabric", "rl4co"):
-    logging.getLogger(_n).setLevel(logging.ERROR)
 from rl4co.data import dataset as D  # noqa: E402
 from rl4co.data.generate_data import generate_dataset  # noqa: E402
 from rl4co.data.utils import load_npz_to_tensordict, save_tensordict_to_npz  # noqa: E402
 from rl4co.envs import get_env  # noqa: E402
+from rl4co.envs.scheduling.fjsp import parser as fjsp_parser  # noqa: E402
+from rl4co.envs.scheduling.jssp import parser as jssp_parser  # noqa: E402
 from rl4co.models.rl.common.base import RL4COLitModule  # noqa: E402
 from rl4co.models.rl.reinforce.baselines import RolloutBaseline  # noqa: E402
 
-logging.disable(logging.WARNING)  # rl4co's pylogger is chatty ("val_file not set", ...)
+logging.disable(logging.WARNING)  # rl4co / lightning loggers are chatty ("val_file not set", ...)
 
 KNOWN = {
-    "C19.fjsp.file-generator.order": "FJSPFileGenerator lists files with unsorted os.listdir: instances 0001..000N written by parser.write come back permuted",
+    "C19.fjsp.file-generator.order": "FJSPFileGenerator lists files with unsorted os.listdir: files 0001..000N written by parser.write come back permuted",
     "C19.jssp.file-generator.order": "JSSPFileGenerator lists files with unsorted os.listdir: instance files 0001..000N come back permuted",
-    "C19.env.pickle.unpickle-rewinds-global-rng": "env.rng IS torch.default_generator; __setstate__ does torch.manual_seed(0)+set_state, so pickle.loads(env blob) rewinds the global RNG and the ORIGINAL env regenerates the same instances",
-    "C19.mtvrp.load_data.scale.masks-equivalent": "MTVRPEnv.load_data(scale=True) divides demands by capacity_original but leaves vehicle_capacity unscaled: capacity masks differ from the unscaled instance",
-    "C19.ckpt.load-default-raises": "REINFORCE.load_from_checkpoint(path) raises UnpicklingError under torch>=2.6 (torch.load without weights_only=False on a checkpoint holding env/policy hparams)",
+    "C19.env.pickle.unpickle-rewinds-global-rng": "env.rng IS torch.default_generator; __setstate__ does torch.manual_seed(0)+set_state, so "
+    "pickle.loads(env blob) rewinds the global RNG and the ORIGINAL env regenerates the same instances",
+    "C19.mtvrp.load_data.scale.masks-equivalent": "MTVRPEnv.load_data(scale=True) divides demands by capacity_original but leaves "
+    "vehicle_capacity unscaled: capacity masks differ from the unscaled instance",
+    "C19.ckpt.load-default-raises": "REINFORCE.load_from_checkpoint(path) raises UnpicklingError under torch>=2.6 (torch.load without "
+    "weights_only=False on a checkpoint holding env/policy hparams)",
     "C19.ckpt.exponential.baseline-eval": "ExponentialBaseline.v is a plain attribute, not in state_dict: after restore the moving average restarts",
-    "C19.ckpt.rollout.baseline-eval": "WarmupBaseline.alpha (and warmup ExponentialBaseline.v) not in state_dict: restored model falls back to the warmup baseline",
-    "C19.ckpt.warmup.baseline-eval": "WarmupBaseline.alpha (and warmup ExponentialBaseline.v) not in state_dict: restored model falls back to the warmup baseline",
+    "C19.ckpt.rollout.baseline-eval": "WarmupBaseline.alpha (and warmup ExponentialBaseline.v) not in state_dict: restored model falls back to warmup",
+    "C19.ckpt.warmup.baseline-eval": "WarmupBaseline.alpha (and warmup ExponentialBaseline.v) not in state_dict: restored model falls back to warmup",
 }
 CLASSES = ["TensorDictDataset", "FastTdDataset", "TensorDictDatasetFastGeneration"]
+_n6 = dict(generator_params=dict(num_loc=6))
 ENVCFG = {
-    "tsp": dict(generator_params=dict(num_loc=6)), "atsp": dict(generator_params=dict(num_loc=6)),
-    "cvrp": dict(generator_params=dict(num_loc=6)), "sdvrp": dict(generator_params=dict(num_loc=6)),
-    "cvrptw": dict(generator_params=dict(num_loc=6)), "op": dict(generator_params=dict(num_loc=6)),
-    "pctsp": dict(generator_params=dict(num_loc=6)), "spctsp": dict(generator_params=dict(num_loc=6)),
-    "pdp": dict(generator_params=dict(num_loc=6)), "svrp": dict(generator_params=dict(num_loc=6)),
+    **{k: _n6 for k in ("tsp", "atsp", "cvrp", "sdvrp", "cvrptw", "op", "pctsp", "spctsp", "pdp", "svrp", "tsp_kopt", "pdp_ruin_repair")},
     "mtsp": dict(generator_params=dict(num_loc=6, min_num_agents=2, max_num_agents=2), cost_type="minmax"),
     "mdcpdp": dict(generator_params=dict(num_loc=6, num_agents=2)),
     "mtvrp": dict(generator_params=dict(num_loc=6, variant_preset="all")),
     "ffsp": dict(generator_params=dict(num_job=4, num_machine=2, num_stage=2)),
     "fjsp": dict(generator_params=dict(num_jobs=3, num_machines=3, min_ops_per_job=1, max_ops_per_job=3), mask_no_ops=False),
-    "jssp": dict(generator_params=dict(num_jobs=3, num_machines=3)), "smtwtp": dict(generator_params=dict(num_job=5)),
+    "jssp": dict(generator_params=dict(num_jobs=3, num_machines=3)),
+    "smtwtp": dict(generator_params=dict(num_job=5)),
     "mcp": dict(generator_params=dict(num_items=8, num_sets=5, n_sets_to_choose=2, min_size=3, max_size=3)),
     "flp": dict(generator_params=dict(num_loc=8, to_choose=3)),
-    "tsp_kopt": dict(generator_params=dict(num_loc=6)), "pdp_ruin_repair": dict(generator_params=dict(num_loc=6)),
 }
 A = _lib.args()
 THOROUGH = A.tier == "thorough"
-ROUNDS = 6 if THOROUGH else 2  # every section is repeated with fresh random data / seeds VERIF_SEED + 1000 * round
+ROUNDS = 6 if THOROUGH else 2  # every section is repeated with fresh random data; seed of a round = VERIF_SEED + 1000 * round
 BOUND = (
     f"{ROUNDS} rounds (seed VERIF_SEED+1000*round) of: "
     "datasets: 3 dataset classes x instance sets {synthetic mixed-dtype (f32,f64,i64,i32,bool), tsp6, cvrp6, fjsp3x3} x N in "
     + ("{1,2,5,8,12}" if THOROUGH else "{1,5,8}") + " x batch sizes {1,2,3,N,N+2} x shuffle on/off x extra key on/off, 2 passes over each loader; "
-    "wrap: RolloutBaseline with 1-layer AM policy (embed 16) on tsp6/cvrp6, N=7 instances, eval batch sizes " + ("{1,2,3,4,7,10}" if THOROUGH else "{1,3,7,10}")
-    + " x 3 dataset classes, train loader (bs,shuffle) in {(7,off),(3,off),(2,on),(3,on)}; npz: 5 instance sets x N in {1,3,8} x compress on/off; "
-    "loaddata: CVRP npz with per-row capacities (4x5, 6x7), MTVRP npz scale on/off (3 and 5 rows, capacities 16/32/64), generate_dataset "
-    "tsp10/vrp10/pdp10/atsp10/op20(const,unif,dist)/pctsp20 x 5 instances x seeds {s,s,s+1}; sched: FJSP " + ("4" if THOROUGH else "2") + " configs and JSSP "
-    + ("3" if THOROUGH else "2") + " configs (2-5 jobs, 2-4 machines) x 4 instances x 1 random action sequence; envcopy: 21 envs (19 constructive + 2 improvement, reset only) x "
-    "{deepcopy,pickle} of a used env x batch 3 x 1 random action sequence; ckpt: REINFORCE+AM(1 layer) tsp6" + ("/cvrp6" if THOROUGH else "")
-    + ", 2 epochs x 2 batches of 4, baselines " + ("{no,exponential,mean,rollout,warmup,critic}" if THOROUGH else "{no,exponential,rollout}")
-    + " x load_baseline on/off, 6 test instances."
+    "wrap: RolloutBaseline with 1-layer AM policy (embed 16) on tsp6/cvrp6, N=7 instances, eval batch sizes "
+    + ("{1,2,3,4,7,10}" if THOROUGH else "{1,3,7,10}") + " x 3 dataset classes, train loader (bs,shuffle) in {(7,off),(3,off),(2,on),(3,on)}; "
+    "npz: 5 instance sets x N in {1,3,8} x compress on/off; loaddata: CVRP npz with per-row capacities (4x5, 6x7), MTVRP npz scale on/off "
+    "(3 and 5 rows, capacities 16/32/64), generate_dataset tsp10/vrp10/pdp10/atsp10/op20(const,unif,dist)/pctsp20 x 5 instances x seeds {s,s,s+1}; "
+    "sched: FJSP " + ("4" if THOROUGH else "2") + " configs and JSSP " + ("3" if THOROUGH else "2") + " configs (2-5 jobs, 2-4 machines) x 4 instances x 1 random "
+    "action sequence; envcopy: 21 envs (19 constructive + 2 improvement, reset only) x {deepcopy,pickle} of a used env x batch 3 x 1 random action "
+    "sequence; ckpt: REINFORCE+AM(1 layer) tsp6" + ("/cvrp6" if THOROUGH else "") + ", 2 epochs x 2 batches of 4, baselines "
+    + ("{no,exponential,mean,rollout,warmup,critic}" if THOROUGH else "{no,exponential,rollout}") + " x load_baseline on/off, 6 test instances."
 )
 rep = _lib.Report(bound=BOUND, rule="one case = one (round, section, class/env/config, size, batch size, shuffle, extra) combination; key = that tuple")
 RND, NFAIL = [0], {}
@@ -125,12 +124,23 @@ def teq(a, b):
 
 
 def tdeq(a, b, keys=None):
-    keys = sorted(a.keys()) if keys is None else keys
-    return [k for k in keys if k not in b.keys() or not teq(a[k], b[k])] + [k for k in b.keys() if keys is None and k not in a.keys()]
+    """keys on which TensorDicts a and b differ (value, dtype or shape; missing keys too when keys is None)"""
+    ks = sorted(a.keys()) if keys is None else keys
+    return [k for k in ks if k not in b.keys() or not teq(a[k], b[k])] + [k for k in b.keys() if keys is None and k not in a.keys()]
 
 
 def small(td, n=4):
     return {k: td[k][:n] for k in sorted(td.keys())}
+
+
+def loader(ds, bs, shuffle):  # the data loader the trainer uses
+    return RL4COLitModule._dataloader_single(types.SimpleNamespace(dataloader_num_workers=0), ds, bs, shuffle)
+
+
+def match_rows(src, batch, keys):
+    """index of the source row equal on all keys to each batch row; -1 if none"""
+    cand = lambda r: [j for j in range(src.batch_size[0]) if all(teq(src[k][j], batch[k][r]) for k in keys)]  # noqa: E731
+    return [(cand(r) + [-1])[0] for r in range(batch.batch_size[0])]
 
 
 # ------------------------------------------------------------------ C17 datasets
@@ -141,81 +151,55 @@ def instance_sets(N):
         yield name, get_env(name, **ENVCFG[name]).generator(batch_size=[N])
 
 
-def match_rows(src, batch, keys):
-    """index j of the source row equal (on all keys) to each batch row; -1 if none"""
-    out = []
-    for r in range(batch.batch_size[0]):
-        c = [j for j in range(src.batch_size[0]) if all(teq(src[k][j], batch[k][r]) for k in keys)]
-        out.append(c[0] if c else -1)
-    return out
-
-
-def loader(ds, bs, shuffle):
-    return RL4COLitModule._dataloader_single(types.SimpleNamespace(dataloader_num_workers=0), ds, bs, shuffle)
-
-
-def sec_datasets():
-    for N in ([1, 2, 5, 8, 12] if THOROUGH else [1, 5, 8]):
-        for sname, src in instance_sets(N):
-            keys = sorted(src.keys())
-            extra = torch.arange(N, dtype=torch.float32) * 7.0 - 3.0
-            for cname in CLASSES:
-                for with_extra in (False, True):
-                    orig = src.clone()
-                    given = src.clone()
-                    ds = getattr(D, cname)(given)
+def sec_datasets(tmp, seed):
+    combos = [(N, sname, src, cname, ex) for N in ([1, 2, 5, 8, 12] if THOROUGH else [1, 5, 8]) for sname, src in instance_sets(N) for cname in CLASSES for ex in (False, True)]
+    for N, sname, src, cname, with_extra in combos:
+        keys, P = sorted(src.keys()), f"C17.{cname}."
+        extra = torch.arange(N, dtype=torch.float32) * 7.0 - 3.0
+        orig, given = src.clone(), src.clone()
+        ds = getattr(D, cname)(given)
+        if with_extra:
+            ds = ds.add_key("extra", extra.clone())
+        for bs, shuffle in [(b, s) for b in sorted({1, 2, 3, N, N + 2}) for s in (False, True)]:
+            cfg = dict(cls=cname, set=sname, N=N, batch_size=bs, shuffle=shuffle, extra=with_extra)
+            case("datasets", *cfg.values())
+            try:
+                passes = [[b for b in loader(ds, bs, shuffle)] for _ in range(2)]
+            except Exception as e:
+                fail(P + "read-raises", f"reading through the DataLoader raised {type(e).__name__}: {e}", cfg)
+                continue
+            for pi, out in enumerate(passes):
+                exp_sizes = [bs] * (N // bs) + ([N % bs] if N % bs else [])
+                if not check([tuple(b.batch_size) for b in out] == [(x,) for x in exp_sizes], P + "batch-sizes", f"batch sizes {[tuple(b.batch_size) for b in out]} != {exp_sizes}", cfg):
+                    continue
+                perm = []
+                for b in out:
+                    ok = check(sorted(b.keys()) == sorted(keys + (["extra"] if with_extra else [])), P + "keys", f"keys {sorted(b.keys())}", cfg)
+                    ok = ok and check(all(b[k].dtype == orig[k].dtype and b[k].shape == (b.batch_size[0],) + orig[k].shape[1:] for k in keys), P + "dtype-shape",
+                                      "dtype/shape of a key changed: " + str({k: (str(b[k].dtype), list(b[k].shape)) for k in b.keys()}), cfg)
+                    if not ok:
+                        perm = None
+                        break
+                    rows = match_rows(orig, b, keys)
                     if with_extra:
-                        ds = ds.add_key("extra", extra.clone())
-                    for bs in sorted({1, 2, 3, N, N + 2}):
-                        for shuffle in (False, True):
-                            cfg = dict(cls=cname, set=sname, N=N, batch_size=bs, shuffle=shuffle, extra=with_extra)
-                            case(*("datasets",) + tuple(cfg.values()))
-                            P = f"C17.{cname}."
-                            try:
-                                passes = [[b for b in loader(ds, bs, shuffle)] for _ in range(2)]
-                            except Exception as e:
-                                fail(P + "read-raises", f"reading through the DataLoader raised {type(e).__name__}: {e}", cfg)
-                                continue
-                            for pi, out in enumerate(passes):
-                                exp_sizes = [bs] * (N // bs) + ([N % bs] if N % bs else [])
-                                if not check([int(b.batch_size[0]) for b in out] == exp_sizes and all(len(b.batch_size) == 1 for b in out),
-                                             P + "batch-sizes", f"batch sizes {[tuple(b.batch_size) for b in out]} != {exp_sizes}", cfg):
-                                    continue
-                                perm = []
-                                for b in out:
-                                    ok = check(sorted(b.keys()) == sorted(keys + (["extra"] if with_extra else [])), P + "keys", f"keys {sorted(b.keys())}", cfg)
-                                    ok = ok and check(all(b[k].dtype == orig[k].dtype and b[k].shape == (b.batch_size[0],) + orig[k].shape[1:] for k in keys),
-                                                      P + "dtype-shape", "dtype/shape of a key changed: " + str({k: (str(b[k].dtype), list(b[k].shape)) for k in b.keys()}), cfg)
-                                    if not ok:
-                                        perm = None
-                                        break
-                                    rows = match_rows(orig, b, keys)
-                                    if with_extra:
-                                        bad = [(r, j) for r, j in enumerate(rows) if j >= 0 and float(b["extra"][r]) != float(extra[j])]
-                                        check(not bad, P + "extra-travels", f"extra value does not belong to its instance (batch row, source row) {bad[:3]}",
-                                              {**cfg, "extra_in_batch": b["extra"], "source_rows": rows})
-                                    perm += rows
-                                if perm is None:
-                                    continue
-                                if shuffle:
-                                    check(sorted(perm) == list(range(N)), P + "permutation", f"shuffled read-back is not a permutation of the instances (all keys together): {perm}", cfg)
-                                else:
-                                    check(perm == list(range(N)), P + "order", f"read-back source rows {perm} != {list(range(N))} (pass {pi})", {**cfg, "instances": small(orig)})
-                            if not shuffle and len(passes[0]) == len(passes[1]):
-                                check(all(not tdeq(a, b) for a, b in zip(*passes)), P + "second-pass", "second pass over the loader differs from the first", cfg)
-                    check(not tdeq(orig, given, keys), f"C17.{cname}.source-mutated", "values of the wrapped TensorDict changed by wrapping/reading", dict(cls=cname, set=sname, N=N))
+                        bad = [(r, j) for r, j in enumerate(rows) if j >= 0 and float(b["extra"][r]) != float(extra[j])]
+                        check(not bad, P + "extra-travels", f"extra value does not belong to its instance (batch row, source row) {bad[:3]}", {**cfg, "extra_in_batch": b["extra"], "source_rows": rows})
+                    perm += rows
+                if perm is not None and shuffle:
+                    check(sorted(perm) == list(range(N)), P + "permutation", f"shuffled read-back is not a permutation of the instances (all keys together): {perm}", cfg)
+                elif perm is not None:
+                    check(perm == list(range(N)), P + "order", f"read-back source rows {perm} != {list(range(N))} (pass {pi})", {**cfg, "instances": small(orig)})
+            if not shuffle and len(passes[0]) == len(passes[1]):
+                check(all(not tdeq(a, b) for a, b in zip(*passes)), P + "second-pass", "second pass over the loader differs from the first", cfg)
+        check(not tdeq(orig, given, keys), P + "source-mutated", "values of the wrapped TensorDict changed by wrapping/reading", dict(cls=cname, set=sname, N=N, extra=with_extra))
 
 
 # ------------------------------------------------------------------ C17 baseline wrapping
-def tour_len(nodes, tour):
-    p = nodes.double()[torch.as_tensor(tour)]
-    return float((p - p.roll(-1, 0)).norm(dim=-1).sum())
-
-
 def own_reward(env_name, inst, actions):
-    if env_name == "tsp":
-        return -tour_len(inst["locs"], actions)
-    return -tour_len(torch.cat((inst["depot"][None], inst["locs"]), 0), [0] + list(actions) + [0])
+    """minus the closed tour length; CVRP tours start and end at the depot (node 0)"""
+    nodes, tour = (inst["locs"], actions) if env_name == "tsp" else (torch.cat((inst["depot"][None], inst["locs"]), 0), [0] + list(actions) + [0])
+    p = nodes.double()[torch.as_tensor(tour)]
+    return -float((p - p.roll(-1, 0)).norm(dim=-1).sum())
 
 
 def tiny_policy(env_name, embed=16):
@@ -225,58 +209,50 @@ def tiny_policy(env_name, embed=16):
 
 def solo_greedy(policy, env, env_name, src):
     policy.eval()
-    out = []
     with torch.inference_mode():
-        for i in range(src.batch_size[0]):
-            o = policy(env.reset(src[i:i + 1].clone()), env, decode_type="greedy")
-            out.append(own_reward(env_name, src[i], o["actions"][0].tolist()))
-    return torch.tensor(out, dtype=torch.float64)
+        acts = [policy(env.reset(src[i:i + 1].clone()), env, decode_type="greedy")["actions"][0].tolist() for i in range(src.batch_size[0])]
+    return torch.tensor([own_reward(env_name, src[i], a) for i, a in enumerate(acts)], dtype=torch.float64)
 
 
-def sec_wrap():
+def sec_wrap(tmp, seed):
     N = 7
     for env_name in ("tsp", "cvrp"):
         env = get_env(env_name, **ENVCFG[env_name])
-        policy = tiny_policy(env_name)
         bl = RolloutBaseline()
-        bl.setup(policy, env, batch_size=3, device="cpu", dataset_size=N)  # real path used by REINFORCE.post_setup_hook
+        bl.setup(tiny_policy(env_name), env, batch_size=3, device="cpu", dataset_size=N)  # the path used by REINFORCE.post_setup_hook
         own = next(iter(loader(bl.dataset, N, False)))  # the baseline's own evaluation instances, in dataset order
-        case(*("wrap", env_name, "bl_vals"))
+        case("wrap", env_name, "bl_vals")
         exp = solo_greedy(bl.policy, env, env_name, own)
         check(np.allclose(bl.bl_vals, exp.numpy(), atol=1e-4), "C17.rollout.bl_vals", f"bl_vals[i] is not the baseline policy's greedy reward on instance i: {bl.bl_vals.tolist()} vs {exp.tolist()}",
-              dict(env=env_name, instances=small(own)))
+              dict(env=env_name, instances=small(own, N)))
         src = env.generator(batch_size=[N])
-        keys = sorted(src.keys())
-        exp = solo_greedy(bl.policy, env, env_name, src)
-        for cname in CLASSES:
-            for ebs in ([1, 2, 3, 4, 7, 10] if THOROUGH else [1, 3, 7, 10]):
-                cfg = dict(env=env_name, cls=cname, N=N, eval_batch_size=ebs)
-                case(*("wrap",) + tuple(cfg.values()))
-                try:
-                    r = bl.rollout(bl.policy, env, batch_size=ebs, dataset=getattr(D, cname)(src.clone()))
-                    wrapped = bl.wrap_dataset(getattr(D, cname)(src.clone()), env, batch_size=ebs, device="cpu")
-                except Exception as e:
-                    fail(f"C17.wrap_dataset.{cname}.raises", f"{type(e).__name__}: {e}", cfg)
-                    continue
-                check(r.shape == (N,) and torch.allclose(r.double(), exp, atol=1e-4), "C17.rollout.order", f"rollout()[i] != greedy reward of instance i alone: {r.tolist()} vs {exp.tolist()}",
-                      {**cfg, "instances": small(src, 7)})
-                for bs, shuffle in ((N, False), (2, True), (3, True), (3, False)):
-                    for b in loader(wrapped, bs, shuffle):
-                        rows = match_rows(src, b, keys)
-                        bad = [(r_, j, float(b["extra"][r_]), float(exp[j])) for r_, j in enumerate(rows) if j < 0 or abs(float(b["extra"][r_]) - float(exp[j])) > 1e-4]
-                        name = f"C17.wrap_dataset.{cname}." + ("extra-travels" if shuffle else "extra-is-own-greedy-reward")
-                        check(not bad, name, f"(batch row, source row, extra, own greedy reward of that instance) {bad[:3]}",
-                              {**cfg, "train_batch_size": bs, "shuffle": shuffle, "instances": small(src, 7)})
+        keys, exp = sorted(src.keys()), solo_greedy(bl.policy, env, env_name, src)
+        for cname, ebs in [(c, e) for c in CLASSES for e in ([1, 2, 3, 4, 7, 10] if THOROUGH else [1, 3, 7, 10])]:
+            cfg = dict(env=env_name, cls=cname, N=N, eval_batch_size=ebs)
+            case("wrap", *cfg.values())
+            try:
+                r = bl.rollout(bl.policy, env, batch_size=ebs, dataset=getattr(D, cname)(src.clone()))
+                wrapped = bl.wrap_dataset(getattr(D, cname)(src.clone()), env, batch_size=ebs, device="cpu")
+            except Exception as e:
+                fail(f"C17.wrap_dataset.{cname}.raises", f"{type(e).__name__}: {e}", cfg)
+                continue
+            check(r.shape == (N,) and torch.allclose(r.double(), exp, atol=1e-4), "C17.rollout.order", f"rollout()[i] != greedy reward of instance i alone: {r.tolist()} vs {exp.tolist()}",
+                  {**cfg, "instances": small(src, N)})
+            for bs, shuffle in ((N, False), (3, False), (2, True), (3, True)):
+                for b in loader(wrapped, bs, shuffle):
+                    rows = match_rows(src, b, keys)
+                    bad = [(i, j, float(b["extra"][i]), float(exp[j])) for i, j in enumerate(rows) if j < 0 or abs(float(b["extra"][i]) - float(exp[j])) > 1e-4]
+                    check(not bad, f"C17.wrap_dataset.{cname}." + ("extra-travels" if shuffle else "extra-is-own-greedy-reward"),
+                          f"(batch row, source row, extra, own greedy reward of that instance) {bad[:3]}", {**cfg, "train_batch_size": bs, "shuffle": shuffle, "instances": small(src, N)})
 
 
 # ------------------------------------------------------------------ C19 npz / load_data / generate_dataset
-def sec_npz(tmp):
+def sec_npz(tmp, seed):
     for N in (1, 3, 8):
-        sets = list(instance_sets(N)) + [("mtvrp", get_env("mtvrp", **ENVCFG["mtvrp"]).generator(batch_size=[N]))]
-        for sname, src in sets:
+        for sname, src in list(instance_sets(N)) + [("mtvrp", get_env("mtvrp", **ENVCFG["mtvrp"]).generator(batch_size=[N]))]:
             for compress in (False, True):
                 cfg = dict(set=sname, N=N, compress=compress)
-                case(*("npz",) + tuple(cfg.values()))
+                case("npz", *cfg.values())
                 f = os.path.join(tmp, f"npz_{sname}_{N}_{compress}.npz")
                 try:
                     save_tensordict_to_npz(src.clone(), f, compress=compress)
@@ -290,13 +266,14 @@ def sec_npz(tmp):
 
 
 def replay(env, td, actions=None, g=None, maxsteps=120):
-    """Step env from reset state td; sample actions from the mask (actions=None) or replay the given ones. Returns masks, actions, final td."""
-    masks, acts = [], []
+    """Step env from reset state td, sampling actions from the mask (actions=None) or replaying the given ones.
+    Returns the trace of [action_mask | done] per step, the actions, and the final td."""
+    snap = lambda t: torch.cat((t["action_mask"].reshape(t.batch_size[0], -1), t["done"].reshape(t.batch_size[0], -1)), 1)  # noqa: E731
+    trace, acts = [], []
     while not bool(td["done"].all()) and len(acts) < maxsteps and (actions is None or len(acts) < len(actions)):
-        m = td["action_mask"].reshape(td.batch_size[0], -1)
-        masks.append(torch.cat((m, td["done"].reshape(td.batch_size[0], -1)), 1))
+        trace.append(snap(td))
         if actions is None:
-            w = m.float()
+            w = td["action_mask"].reshape(td.batch_size[0], -1).float()
             w[w.sum(1) == 0, 0] = 1.0
             a = torch.multinomial(w, 1, generator=g).squeeze(-1)
         else:
@@ -304,32 +281,29 @@ def replay(env, td, actions=None, g=None, maxsteps=120):
         acts.append(a)
         td.set("action", a.clone())
         td = env.step(td)["next"]
-    masks.append(torch.cat((td["action_mask"].reshape(td.batch_size[0], -1), td["done"].reshape(td.batch_size[0], -1)), 1))
-    return masks, acts, td
+    return trace + [snap(td)], acts, td
 
 
-def same_masks(m1, m2):
+def trace_diff(m1, m2):
     if len(m1) != len(m2):
         return f"episode lengths differ: {len(m1)} vs {len(m2)}"
-    for t, (a, b) in enumerate(zip(m1, m2)):
-        if not torch.equal(a, b):
-            return f"[action_mask | done] differ at step {t}: {a.int().tolist()} vs {b.int().tolist()}"
-    return ""
+    return next((f"[action_mask | done] differ at step {t}: {a.int().tolist()} vs {b.int().tolist()}" for t, (a, b) in enumerate(zip(m1, m2)) if not torch.equal(a, b)), "")
 
 
 def sec_loaddata(tmp, seed):
     rng = np.random.RandomState(seed)
-    # CVRP: per-row capacities, integer demands
-    for B, n in ((4, 5), (6, 7)):
-        raw = dict(depot=rng.rand(B, 2).astype(np.float32), locs=rng.rand(B, n, 2).astype(np.float32),
-                   demand=rng.randint(1, 10, (B, n)).astype(np.float32), capacity=rng.permutation([20., 25., 30., 7.5, 40., 33.])[:B].astype(np.float32))
+    for B, n in ((4, 5), (6, 7)):  # CVRP: per-row capacities, integer demands
+        raw = dict(depot=rng.rand(B, 2).astype(np.float32), locs=rng.rand(B, n, 2).astype(np.float32), demand=rng.randint(1, 10, (B, n)).astype(np.float32),
+                   capacity=rng.permutation([20., 25., 30., 7.5, 40., 33.])[:B].astype(np.float32))
         f = os.path.join(tmp, f"cvrp_{B}.npz")
         np.savez(f, **raw)
         cfg = dict(env="cvrp", B=B, n=n, demand=raw["demand"].tolist(), capacity=raw["capacity"].tolist())
-        case(*("loaddata", "cvrp", B, n))
+        case("loaddata", "cvrp", B, n)
         env = get_env("cvrp", generator_params=dict(num_loc=n), data_dir=tmp, val_file=f"cvrp_{B}.npz", test_file=f"cvrp_{B}.npz")
         try:
             got = env.load_data(f)
+            td = env.reset(got.clone())
+            through = [torch.cat([b["demand"] for b in loader(env.dataset(B, phase=ph), bs, False)], 0).numpy() for ph, bs in (("val", 3), ("test", B))]
         except Exception as e:
             fail("C19.cvrp.load_data.raises", f"{type(e).__name__}: {e}", cfg)
             continue
@@ -337,14 +311,10 @@ def sec_loaddata(tmp, seed):
         check(got["demand"].shape == (B, n) and np.array_equal(got["demand"].numpy(), exp), "C19.cvrp.load_data.demand-rowwise",
               f"loaded demand != demand[i,j]/capacity[i]: {got['demand'].tolist()} vs {exp.tolist()}", cfg)
         check(all(np.array_equal(got[k].numpy(), raw[k]) and got[k].numpy().dtype == raw[k].dtype for k in ("depot", "locs", "capacity")), "C19.cvrp.load_data.other-keys", "depot/locs/capacity changed", cfg)
-        for phase, bs in (("val", 3), ("test", B)):
-            allb = torch.cat([b["demand"] for b in loader(env.dataset(B, phase=phase), bs, False)], 0)
-            check(np.array_equal(allb.numpy(), exp), "C19.cvrp.dataset-from-file", f"env.dataset(phase={phase}) through the loader is not the file content in order", cfg)
-        td = env.reset(got.clone())
+        check(all(np.array_equal(t, exp) for t in through), "C19.cvrp.dataset-from-file", "env.dataset(phase=val/test) read through the loader is not the file content in order", cfg)
         check(np.array_equal(td["locs"].numpy(), np.concatenate((raw["depot"][:, None], raw["locs"]), 1)) and np.array_equal(td["demand"].numpy(), exp),
               "C19.cvrp.load_data.reset-content", "reset state of the loaded data does not hold depot+locs / normalised demand", cfg)
-    # MTVRP: scale on/off; capacities powers of two so scaling is exact in float32
-    for B in (3, 5):
+    for B in (3, 5):  # MTVRP: scale on/off; capacities are powers of two so that scaling is exact in float32
         env = get_env("mtvrp", generator_params=dict(num_loc=6, variant_preset="all", scale_demand=False))
         src = env.generator(batch_size=[B])
         cap = torch.tensor([16., 32., 64., 32., 16.])[:B, None]
@@ -352,34 +322,31 @@ def sec_loaddata(tmp, seed):
         f = os.path.join(tmp, f"mtvrp_{B}.npz")
         np.savez(f, **{k: v.numpy() for k, v in src.items()})
         cfg = dict(env="mtvrp", B=B, capacity_original=cap.flatten().tolist(), demand_linehaul=src["demand_linehaul"], demand_backhaul=src["demand_backhaul"])
-        case(*("loaddata", "mtvrp", B))
+        case("loaddata", "mtvrp", B)
         try:
             sc, ns = env.load_data(f, scale=True), env.load_data(f, scale=False)
         except Exception as e:
             fail("C19.mtvrp.load_data.raises", f"{type(e).__name__}: {e}", cfg)
             continue
         dk = ("demand_linehaul", "demand_backhaul")
-        check(all(np.array_equal(sc[k].numpy(), src[k].numpy() / cap.numpy()) for k in dk), "C19.mtvrp.load_data.scale-rowwise", "scaled demand != demand[i,j]/capacity_original[i]",
-              {**cfg, "got_linehaul": sc["demand_linehaul"]})
+        check(all(np.array_equal(sc[k].numpy(), src[k].numpy() / cap.numpy()) for k in dk), "C19.mtvrp.load_data.scale-rowwise", "scaled demand != demand[i,j]/capacity_original[i]", {**cfg, "got_linehaul": sc["demand_linehaul"]})
         check(not tdeq(src, ns), "C19.mtvrp.load_data.noscale", f"scale=False changed {tdeq(src, ns)}", cfg)
         check(not tdeq(src, sc, [k for k in src.keys() if k not in dk + ("vehicle_capacity",)]), "C19.mtvrp.load_data.other-keys", "scale=True changed a non-demand key", cfg)
-        g = torch.Generator().manual_seed(seed)
-        m0, acts, _ = replay(env, env.reset(src.clone()), g=g)
-        m1, _, _ = replay(env, env.reset(sc.clone()), actions=acts)
-        d = same_masks(m0, m1)
+        m0, acts, _ = replay(env, env.reset(src.clone()), g=torch.Generator().manual_seed(seed))
+        d = trace_diff(m0, replay(env, env.reset(sc.clone()), actions=acts)[0])
         check(not d, "C19.mtvrp.load_data.scale.masks-equivalent", "instance loaded with scale=True is not equivalent to the unscaled one: " + d,
               {**cfg, "vehicle_capacity_loaded": sc["vehicle_capacity"].flatten().tolist(), "actions": [a.tolist() for a in acts]})
     # generate_dataset writers consumed by the env loaders
     with_depot = lambda r: np.concatenate((r["depot"][:, None], r["locs"]), 1)  # noqa: E731
-    probs = [("tsp", "tsp", 10, None, lambda r: r["locs"]), ("vrp", "cvrp", 10, None, with_depot), ("pdp", "pdp", 10, None, with_depot),
-             ("atsp", "atsp", 10, None, None), ("pctsp", "pctsp", 20, None, with_depot)] + [("op", "op", 20, d, with_depot) for d in ("const", "unif", "dist")]
+    probs = [("tsp", "tsp", 10, None, lambda r: r["locs"]), ("vrp", "cvrp", 10, None, with_depot), ("pdp", "pdp", 10, None, with_depot), ("atsp", "atsp", 10, None, None),
+             ("pctsp", "pctsp", 20, None, with_depot)] + [("op", "op", 20, d, with_depot) for d in ("const", "unif", "dist")]
     for prob, env_name, size, dist, locs_of in probs:
-        cfg = dict(problem=prob, size=size, distribution=dist, dataset_size=5)
-        case(*("generate", prob, dist))
+        cfg = dict(problem=prob, size=size, distribution=dist, dataset_size=5, seeds=[seed + 11, seed + 11, seed + 12])
+        case("generate", prob, dist)
         P = f"C19.generate_dataset.{prob}."
         try:
             fs = [os.path.join(tmp, f"gen_{prob}_{dist}_{i}.npz") for i in range(3)]
-            for f, s in zip(fs, (seed + 11, seed + 11, seed + 12)):
+            for f, s in zip(fs, cfg["seeds"]):
                 generate_dataset(filename=f, problem=prob, data_distribution=dist or "all", dataset_size=5, graph_sizes=[size], seed=s, overwrite=True)
             raws = [dict(np.load(f)) for f in fs]
             env = get_env(env_name, generator_params=dict(num_loc=size))
@@ -400,18 +367,19 @@ def sec_loaddata(tmp, seed):
 
 # ------------------------------------------------------------------ C19 FJSP / JSSP text files
 def structure(td, i):
-    """own reading of instance i: (list over jobs of list over ops of sorted [(machine0, duration)], #unpadded ops, padded tail is empty)"""
-    jobs = []
+    """own reading of instance i: (jobs -> ops -> sorted [(machine0, duration)], #unpadded ops - #ops (0 if consistent), weight in the padded tail (0 if clean))"""
+    jobs, pt = [], td["proc_times"]
     try:
         for s, e in zip(td["start_op_per_job"][i].long().tolist(), td["end_op_per_job"][i].long().tolist()):
-            jobs.append([sorted((m, int(td["proc_times"][i, m, o])) for m in range(td["proc_times"].shape[1]) if td["proc_times"][i, m, o] > 0) for o in range(s, e + 1)])
+            jobs.append([sorted((m, int(pt[i, m, o])) for m in range(pt.shape[1]) if pt[i, m, o] > 0) for o in range(s, e + 1)])
     except IndexError as e:  # inconsistent start/end indices in a read-back instance
         return f"unreadable: {e}", 0, 0.0
     n_ops = sum(len(j) for j in jobs)
-    return jobs, int((~td["pad_mask"][i]).sum()) - n_ops, float(td["proc_times"][i, :, n_ops:].sum()) + float(td["pad_mask"][i, :n_ops].sum())
+    return jobs, int((~td["pad_mask"][i]).sum()) - n_ops, float(pt[i, :, n_ops:].sum()) + float(td["pad_mask"][i, :n_ops].sum())
 
 
 def parse_text(path, flexible):
+    """own parser. FJSP line: <n ops> then per op <n eligible> (<machine1> <dur>)*; JSSP line: (<machine1> <dur>)* ; machines are 1-based"""
     rows = [[int(float(x)) for x in ln.split()] for ln in open(path) if ln.strip()]
     jobs = []
     for row in rows[1:]:
@@ -426,7 +394,7 @@ def parse_text(path, flexible):
     return rows[0][:2], jobs
 
 
-def write_jssp(d, td):
+def write_jssp(d, td):  # rl4co has no JSSP writer: own writer in the format documented in jssp/parser.py
     for i in range(td.batch_size[0]):
         jobs = structure(td, i)[0]
         lines = [f"{len(jobs)} {td['proc_times'].shape[1]}"] + [" ".join(f"{op[0][0] + 1} {op[0][1]}" for op in job) for job in jobs]
@@ -437,106 +405,93 @@ def sec_sched(tmp, seed):
     fj = [dict(num_jobs=3, num_machines=3, min_ops_per_job=1, max_ops_per_job=3, max_processing_time=9), dict(num_jobs=4, num_machines=2, min_ops_per_job=2, max_ops_per_job=4),
           dict(num_jobs=2, num_machines=4, min_ops_per_job=3, max_ops_per_job=3, same_mean_per_op=False), dict(num_jobs=5, num_machines=3, min_ops_per_job=1, max_ops_per_job=2)]
     js = [dict(num_jobs=3, num_machines=3), dict(num_jobs=4, num_machines=2, max_processing_time=9), dict(num_jobs=2, num_machines=4)]
-    for kind, gps in (("fjsp", fj[: 4 if THOROUGH else 2]), ("jssp", js[: 3 if THOROUGH else 2])):
-        from rl4co.envs.scheduling.fjsp import parser as fparser
-        from rl4co.envs.scheduling.jssp import parser as jparser
-        parser = fparser if kind == "fjsp" else jparser
-        for ci, gp in enumerate(gps):
-            B = 4
-            cfg = dict(env=kind, generator_params=gp, B=B)
-            case(*("sched", kind, ci))
-            P = f"C19.{kind}."
-            env = get_env(kind, generator_params=gp)
-            src = env.generator(batch_size=[B])
-            cfg["proc_times"], cfg["start_op_per_job"], cfg["end_op_per_job"] = src["proc_times"], src["start_op_per_job"], src["end_op_per_job"]
-            want = [structure(src, i) for i in range(B)]
-            d = os.path.join(tmp, f"{kind}_{ci}")
-            os.makedirs(d)
+    for kind, ci, gp in [("fjsp", i, g) for i, g in enumerate(fj[: 4 if THOROUGH else 2])] + [("jssp", i, g) for i, g in enumerate(js[: 3 if THOROUGH else 2])]:
+        B, P, parser = 4, f"C19.{kind}.", (fjsp_parser if kind == "fjsp" else jssp_parser)
+        case("sched", kind, ci)
+        env = get_env(kind, generator_params=gp)
+        src = env.generator(batch_size=[B])
+        cfg = dict(env=kind, generator_params=gp, B=B, proc_times=src["proc_times"], start_op_per_job=src["start_op_per_job"], end_op_per_job=src["end_op_per_job"])
+        want = [structure(src, i) for i in range(B)]
+        d = os.path.join(tmp, f"{kind}_{ci}")
+        os.makedirs(d)
+        try:
+            fjsp_parser.write(d, env.reset(src.clone())) if kind == "fjsp" else write_jssp(d, src)
+            files = sorted(glob.glob(os.path.join(d, "*.txt")))
             try:
-                if kind == "fjsp":
-                    fparser.write(d, env.reset(src.clone()))
-                else:
-                    write_jssp(d, src)  # rl4co has no JSSP writer: own writer in the format documented in jssp/parser.py (1-based machines)
-                files = sorted(glob.glob(os.path.join(d, "*.txt")))
-                try:
-                    texts = [parse_text(f, kind == "fjsp") for f in files]
-                except (IndexError, ValueError, AssertionError):
-                    texts = [(None, None)] * B  # malformed file
-                check(all(t[0] == [gp["num_jobs"], gp["num_machines"]] and t[1] == w[0] for t, w in zip(texts, want)), P + "write-text",
-                      "text files (own parser) do not hold the instances' jobs/ops/(machine,duration) in order", {**cfg, "first_file": open(files[0]).read()})
-                singles = [parser.read(f) for f in files]
-                check(all(structure(s[0], 0) == w and s[1:3] == (gp["num_jobs"], gp["num_machines"]) for s, w in zip(singles, want)), P + "read-content", "parser.read(file i) != instance i", cfg)
-                env2 = get_env(kind, generator_params={"file_path": d})
-                order = [int(os.path.basename(f)[:4]) - 1 for f in env2.generator.files]
-                td2 = env2.reset(batch_size=[B])
-                ld = env.load_data(d, batch_size=[B])
-            except Exception as e:
-                fail(P + "raises", f"write/read/file generator raised {type(e).__name__}: {e}", cfg)
-                continue
-            for what, got in (("file-generator.content", td2), ("load_data.content", ld)):
-                check(got.batch_size[0] == B and all(structure(got, k) == want[order[k]] for k in range(B)), P + what, "instance read back differs from the instance written to that file", {**cfg, "file_order": order})
-            check(order == list(range(B)), P + "file-generator.order", f"instances come back in file order {[o + 1 for o in order]} instead of 1..{B}", {**cfg, "listdir": [os.path.basename(f) for f in env2.generator.files]})
-            g = torch.Generator().manual_seed(seed + ci)
-            m0, acts, t0 = replay(env, env.reset(src[order].clone()), g=g)
-            try:
-                m1, _, t1 = replay(env2, td2, actions=acts)
-                d_ = same_masks(m0, m1) or ("" if torch.equal(env.get_reward(t0, None), env2.get_reward(t1, None)) else "makespans differ")
-            except Exception as e:
-                d_ = f"replay on the read-back instances raised {type(e).__name__}: {e}"
-            check(not d_, P + "masks-along-actions", d_, {**cfg, "actions": [a.tolist() for a in acts]})
+                texts = [parse_text(f, kind == "fjsp") for f in files]
+            except (IndexError, ValueError, AssertionError):
+                texts = []  # malformed file
+            check(len(texts) == B and all(t[0] == [gp["num_jobs"], gp["num_machines"]] and t[1] == w[0] for t, w in zip(texts, want)), P + "write-text",
+                  "text files (own parser) do not hold the instances' jobs/ops/(machine,duration) in order", {**cfg, "first_file": open(files[0]).read() if files else None})
+            singles = [parser.read(f) for f in files]
+            check(all(structure(s[0], 0) == w and s[1:3] == (gp["num_jobs"], gp["num_machines"]) for s, w in zip(singles, want)), P + "read-content", "parser.read(file i) != instance i", cfg)
+            env2 = get_env(kind, generator_params={"file_path": d})
+            order = [int(os.path.basename(f)[:4]) - 1 for f in env2.generator.files]  # which written instance each generator row comes from
+            td2 = env2.reset(batch_size=[B])
+            ld = env.load_data(d, batch_size=[B])
+        except Exception as e:
+            fail(P + "raises", f"write/read/file generator raised {type(e).__name__}: {e}", cfg)
+            continue
+        for what, got in (("file-generator.content", td2), ("load_data.content", ld)):
+            check(got.batch_size[0] == B and all(structure(got, k) == want[order[k]] for k in range(B)), P + what, "instance read back differs from the instance written to that file", {**cfg, "file_order": order})
+        check(order == list(range(B)), P + "file-generator.order", f"instances come back in file order {[o + 1 for o in order]} instead of 1..{B}", {**cfg, "listdir": [os.path.basename(f) for f in env2.generator.files]})
+        m0, acts, t0 = replay(env, env.reset(src[order].clone()), g=torch.Generator().manual_seed(seed + ci))
+        try:
+            m1, _, t1 = replay(env2, td2, actions=acts)
+            diff = trace_diff(m0, m1) or ("" if torch.equal(env.get_reward(t0, None), env2.get_reward(t1, None)) else "makespans differ")
+        except Exception as e:
+            diff = f"replay on the read-back instances raised {type(e).__name__}: {e}"
+        check(not diff, P + "masks-along-actions", diff, {**cfg, "actions": [a.tolist() for a in acts]})
 
 
 # ------------------------------------------------------------------ C19 env deepcopy / pickle
-def sec_envcopy(seed):
-    for s in (0,):  # noqa: B007 (kept for indentation)
-        for name, kw in ENVCFG.items():
-            for how in ("deepcopy", "pickle"):
-                cfg = dict(env=name, how=how, env_seed=seed + s, kwargs=kw, batch=3)
-                case(*("envcopy", name, how))
-                P = f"C19.env.{how}.{name}."
-                acts = []
-                try:  # the original env: reference behaviour (a failure here is not a copy defect)
-                    env = get_env(name, seed=seed + s, **kw)
-                    env.reset(batch_size=[2])  # copy a USED env, stream advanced
-                    st = env.rng.get_state().clone()
-                    a = env.reset(batch_size=[3])
-                    if "action_mask" in a.keys():
-                        m0, acts, t0 = replay(env, a.clone(), g=torch.Generator().manual_seed(seed + s))
-                    torch.set_rng_state(st)
-                except Exception as e:
-                    rep.error(f"envcopy {name}: original env failed, nothing checked: {type(e).__name__}: {e}")
-                    continue
+def sec_envcopy(tmp, seed):
+    for name, kw, how in [(n, k, h) for n, k in ENVCFG.items() for h in ("deepcopy", "pickle")]:
+        cfg = dict(env=name, how=how, env_seed=seed, kwargs=kw, batch=3)
+        case("envcopy", name, how)
+        P, acts = f"C19.env.{how}.{name}.", []
+        try:  # the original env gives the reference behaviour (a failure here is not a copy defect)
+            env = get_env(name, seed=seed, **kw)
+            env.reset(batch_size=[2])  # copy a USED env whose stream has advanced
+            st = env.rng.get_state().clone()
+            a = env.reset(batch_size=[3])
+            if "action_mask" in a.keys():
+                m0, acts, t0 = replay(env, a.clone(), g=torch.Generator().manual_seed(seed))
+            torch.set_rng_state(st)
+        except Exception as e:
+            rep.error(f"envcopy {name}: original env failed, nothing checked: {type(e).__name__}: {e}")
+            continue
+        try:
+            if how == "pickle":
+                blob = pickle.dumps(env)
+                torch.rand(7)  # time passes between dump and load
+                cp = pickle.loads(blob)
+            else:
+                cp = copy.deepcopy(env)
+            lost = [k for k, v in env.__dict__.items() if isinstance(v, (int, float, str, bool, type(None))) and (k not in cp.__dict__ or cp.__dict__[k] != v)]
+            check(not lost, P + "attributes", f"scalar attributes not preserved by the copy: {lost}", cfg)
+            check(type(cp) is type(env) and torch.equal(cp.rng.get_state(), st), P + "rng-state", "copy's rng state differs from the original's at copy time", cfg)
+            torch.set_rng_state(st)
+            b = cp.reset(batch_size=[3])
+            if not check(not tdeq(a, b), P + "reset-state", f"reset state (same rng state) differs in {tdeq(a, b)}", cfg) or not acts:
+                continue
+            m1, _, t1 = replay(cp, b, actions=acts)
+            check(not trace_diff(m0, m1), P + "masks-along-actions", trace_diff(m0, m1), {**cfg, "actions": [x.tolist() for x in acts]})
+            r = []
+            for e_, t_ in ((env, t0), (cp, t1)):
                 try:
-                    if how == "pickle":
-                        blob = pickle.dumps(env)
-                        torch.rand(7)  # time passes between dump and load
-                        cp = pickle.loads(blob)
-                    else:
-                        cp = copy.deepcopy(env)
-                    lost = [k for k, v in env.__dict__.items() if isinstance(v, (int, float, str, bool, type(None))) and (k not in cp.__dict__ or cp.__dict__[k] != v)]
-                    check(not lost, P + "attributes", f"scalar attributes not preserved by the copy: {lost}", cfg)
-                    check(type(cp) is type(env) and torch.equal(cp.rng.get_state(), st), P + "rng-state", "copy's rng state differs from the original's at copy time", cfg)
-                    torch.set_rng_state(st)
-                    b = cp.reset(batch_size=[3])
-                    if not check(not tdeq(a, b), P + "reset-state", f"reset state (same rng state) differs in {tdeq(a, b)}", cfg) or not acts:
-                        continue
-                    m1, _, t1 = replay(cp, b, actions=acts)
-                    check(not same_masks(m0, m1), P + "masks-along-actions", same_masks(m0, m1), {**cfg, "actions": [x.tolist() for x in acts]})
-                    r = []
-                    for e_, t_ in ((env, t0), (cp, t1)):
-                        try:
-                            r.append(e_.get_reward(t_, torch.stack(acts, 1)))
-                        except Exception as ex:  # some envs reject random roll-outs; the copy must then do the same
-                            r.append(type(ex).__name__)
-                    check(type(r[0]) is type(r[1]) and (r[0] == r[1] if isinstance(r[0], str) else teq(r[0], r[1])), P + "reward", f"rewards differ: {r[0]} vs {r[1]}", {**cfg, "actions": [x.tolist() for x in acts]})
-                    if how == "pickle":
-                        torch.set_rng_state(st)
-                        first = env.reset(batch_size=[3])
-                        pickle.loads(blob)
-                        check(bool(tdeq(first, env.reset(batch_size=[3]))), "C19.env.pickle.unpickle-rewinds-global-rng",
-                              "after pickle.loads(blob) the ORIGINAL env regenerates the instances it produced before (global RNG rewound)", cfg)
-                except Exception as e:
-                    fail(P + "raises", f"copying / using the copy raised {type(e).__name__}: {e}", cfg)
+                    r.append(e_.get_reward(t_, torch.stack(acts, 1)))
+                except Exception as ex:  # some envs reject random roll-outs; the copy must then do the same
+                    r.append(type(ex).__name__)
+            check(type(r[0]) is type(r[1]) and (r[0] == r[1] if isinstance(r[0], str) else teq(r[0], r[1])), P + "reward", f"rewards differ: {r[0]} vs {r[1]}", {**cfg, "actions": [x.tolist() for x in acts]})
+            if how == "pickle":
+                torch.set_rng_state(st)
+                first = env.reset(batch_size=[3])
+                pickle.loads(blob)
+                check(bool(tdeq(first, env.reset(batch_size=[3]))), "C19.env.pickle.unpickle-rewinds-global-rng",
+                      "after pickle.loads(blob) the ORIGINAL env regenerates the instances it produced before (global RNG rewound)", cfg)
+        except Exception as e:
+            fail(P + "raises", f"copying / using the copy raised {type(e).__name__}: {e}", cfg)
 
 
 # ------------------------------------------------------------------ C19 checkpoint round trip
@@ -546,35 +501,33 @@ def sec_ckpt(tmp, seed):
     combos = [("tsp", b) for b in (["no", "exponential", "mean", "rollout", "warmup", "critic"] if THOROUGH else ["no", "exponential", "rollout"])]
     combos += [("cvrp", "rollout"), ("cvrp", "exponential")] if THOROUGH else []
     for env_name, bl in combos:
+        # embed 128 for critic: create_critic_from_actor builds its value head for the default embed_dim only
         cfg = dict(env=env_name, baseline=bl, embed_dim=128 if bl == "critic" else 16, epochs=2, train_data_size=8, batch_size=4, seed=seed)
-        case(*("ckpt", env_name, bl))
+        case("ckpt", env_name, bl)
         P = f"C19.ckpt.{bl}."
         torch.manual_seed(seed)
         env = get_env(env_name, **ENVCFG[env_name])
-        model = REINFORCE(env, tiny_policy(env_name, cfg["embed_dim"]), baseline=bl, batch_size=4, val_batch_size=4, test_batch_size=4, train_data_size=8,
-                          val_data_size=8, test_data_size=8, data_dir=tmp, optimizer_kwargs={"lr": 1e-2})
-        trainer = RL4COTrainer(max_epochs=2, accelerator="cpu", devices=1, precision="32-true", matmul_precision=None, logger=False, enable_checkpointing=False,
-                               enable_progress_bar=False, enable_model_summary=False, default_root_dir=tmp, num_sanity_val_steps=0)
         path = os.path.join(tmp, f"{env_name}_{bl}.ckpt")
         try:
+            model = REINFORCE(env, tiny_policy(env_name, cfg["embed_dim"]), baseline=bl, batch_size=4, val_batch_size=4, test_batch_size=4, train_data_size=8,
+                              val_data_size=8, test_data_size=8, data_dir=tmp, optimizer_kwargs={"lr": 1e-2})
+            trainer = RL4COTrainer(max_epochs=2, accelerator="cpu", devices=1, precision="32-true", matmul_precision=None, logger=False, enable_checkpointing=False,
+                                   enable_progress_bar=False, enable_model_summary=False, default_root_dir=tmp, num_sanity_val_steps=0)
             trainer.fit(model)
             trainer.save_checkpoint(path)
         except Exception as e:
-            rep.error(f"ckpt {env_name}/{bl}: training/saving failed: {type(e).__name__}: {e}")
+            rep.error(f"ckpt {env_name}/{bl}: training/saving failed, nothing checked: {type(e).__name__}: {e}")
             continue
         test = env.generator(batch_size=[6])
 
         def greedy(m, pol=None):
-            pol = (pol or m.policy).eval()
             with torch.inference_mode():
-                o = pol(m.env.reset(test.clone()), m.env, decode_type="greedy")
+                o = (pol or m.policy).eval()(m.env.reset(test.clone()), m.env, decode_type="greedy")
             return o["actions"], o["reward"]
 
-        def bl_eval(m):
+        def bl_eval(m):  # the baseline value the training step would subtract for this batch
             with torch.inference_mode():
-                td = m.env.reset(test.clone())
-                v = m.baseline.eval(td, greedy(m)[1].clone(), m.env)[0]
-            return torch.as_tensor(v).float().reshape(-1)
+                return torch.as_tensor(m.baseline.eval(m.env.reset(test.clone()), greedy(m)[1].clone(), m.env)[0]).float().reshape(-1)
 
         def bl_policy(m):
             b = m.baseline
@@ -585,8 +538,7 @@ def sec_ckpt(tmp, seed):
         ref_a, ref_r = greedy(model)
         ref_bl = bl_eval(model)
         for load_baseline in (True, False):
-            c2 = {**cfg, "load_baseline": load_baseline}
-            loaded = None
+            c2, loaded = {**cfg, "load_baseline": load_baseline}, None
             try:
                 loaded = REINFORCE.load_from_checkpoint(path, load_baseline=load_baseline)
             except Exception as e:
@@ -596,7 +548,7 @@ def sec_ckpt(tmp, seed):
                 try:
                     loaded = REINFORCE.load_from_checkpoint(path, load_baseline=load_baseline)
                 except Exception as e2:
-                    fail(P + "load-raises", f"load_from_checkpoint raised even with weights_only disabled: {type(e2).__name__}: {e2}", c2)
+                    fail(P + "load-raises", f"load_from_checkpoint raised even with weights_only disabled: {type(e2).__name__}: {str(e2)[:300]}", c2)
                 finally:
                     os.environ.pop("TORCH_FORCE_NO_WEIGHTS_ONLY_LOAD", None)
             if loaded is None:
@@ -604,24 +556,22 @@ def sec_ckpt(tmp, seed):
             sd0, sd1 = model.policy.state_dict(), loaded.policy.state_dict()
             check(sd0.keys() == sd1.keys() and all(teq(sd0[k], sd1[k]) for k in sd0), P + "policy-weights", "restored policy state_dict differs", c2)
             a, r = greedy(loaded)
-            check(torch.equal(a, ref_a) and torch.equal(r, ref_r), P + "greedy-actions-rewards", f"greedy actions/rewards differ after restore: {r.tolist()} vs {ref_r.tolist()}",
-                  {**c2, "instances": small(test, 6)})
+            check(torch.equal(a, ref_a) and torch.equal(r, ref_r), P + "greedy-actions-rewards", f"greedy actions/rewards differ after restore: {r.tolist()} vs {ref_r.tolist()}", {**c2, "instances": small(test, 6)})
             if load_baseline:
                 p0, p1 = bl_policy(model), bl_policy(loaded)
                 if p0 is not None:
                     check(p1 is not None and all(torch.equal(x, y) for x, y in zip(greedy(model, p0), greedy(loaded, p1))), P + "baseline-policy",
                           "restored rollout-baseline policy gives different greedy actions/rewards", c2)
-                if getattr(model.baseline, "critic", None) is not None:
-                    check(teq(bl_eval(loaded), ref_bl), P + "baseline-policy", "restored critic gives different values", c2)
                 got = bl_eval(loaded)
-                check(got.shape == ref_bl.shape and torch.allclose(got, ref_bl, atol=1e-5), P + "baseline-eval",
-                      f"baseline.eval on the same batch differs after restore: {got.tolist()} vs {ref_bl.tolist()}", c2)
+                if getattr(model.baseline, "critic", None) is not None:
+                    check(teq(got, ref_bl), P + "baseline-policy", "restored critic gives different values", c2)
+                check(got.shape == ref_bl.shape and torch.allclose(got, ref_bl, atol=1e-5), P + "baseline-eval", f"baseline.eval on the same batch differs after restore: {got.tolist()} vs {ref_bl.tolist()}", c2)
 
 
 def main():
     torch.set_num_threads(2)
-    secs = {"datasets": ("C17", lambda t, sd: sec_datasets()), "wrap": ("C17", lambda t, sd: sec_wrap()), "npz": ("C19", lambda t, sd: sec_npz(t)),
-            "loaddata": ("C19", sec_loaddata), "sched": ("C19", sec_sched), "envcopy": ("C19", lambda t, sd: sec_envcopy(sd)), "ckpt": ("C19", sec_ckpt)}
+    secs = {"datasets": ("C17", sec_datasets), "wrap": ("C17", sec_wrap), "npz": ("C19", sec_npz), "loaddata": ("C19", sec_loaddata),
+            "sched": ("C19", sec_sched), "envcopy": ("C19", sec_envcopy), "ckpt": ("C19", sec_ckpt)}
     for rnd in range(ROUNDS):
         RND[0], seed = rnd, A.seed + 1000 * rnd
         with tempfile.TemporaryDirectory(prefix="standin_data_") as tmp:
